@@ -913,12 +913,12 @@ Qed.
 
 (* ---------------------------------------------------------------- the re-encode comparison *)
 
-Lemma bytes_eqb_refl a : bytes_eqb a a = true.
-Proof. induction a as [|x a IH]; cbn [bytes_eqb]; [reflexivity|]. now rewrite Z.eqb_refl, IH. Qed.
+Lemma name_eqb_refl a : name_eqb a a = true.
+Proof. induction a as [|x a IH]; cbn [name_eqb]; [reflexivity|]. now rewrite Z.eqb_refl, IH. Qed.
 
-Lemma bytes_eqb_eq a : forall b, bytes_eqb a b = true -> a = b.
+Lemma name_eqb_eq a : forall b, name_eqb a b = true -> a = b.
 Proof.
-  induction a as [|x a IH]; destruct b as [|y b]; cbn [bytes_eqb]; try discriminate; [reflexivity|].
+  induction a as [|x a IH]; destruct b as [|y b]; cbn [name_eqb]; try discriminate; [reflexivity|].
   intros H. apply andb_true_iff in H. destruct H as [H1 H2]. apply Z.eqb_eq in H1. subst. f_equal. now apply IH.
 Qed.
 
@@ -946,11 +946,6 @@ Proof.
   - now rewrite (Hs Hin).
 Qed.
 
-(* where time.Date / time.Unix put the Start of a name Encode wrote *)
-Definition decoded_unix (L : lzone) (ts : list tok) (t : instant) : Z :=
-  if has Ts ts then i_unix t
-  else i_unix t + i_off t - (if has Tz ts then i_off t else lz_date L (i_unix t + i_off t)).
-
 Lemma decode_lz_unfold L f p t :
   mtch true (tokenize f) (encode_go f p t) = Some (caps_of p t (tokenize f)) ->
   (has TPath (tokenize f) = false -> p = []) ->
@@ -959,7 +954,7 @@ Lemma decode_lz_unfold L f p t :
   let r := decoded_unix L (tokenize f) t in
   let n := snd (trunc_start (tokenize f) t) in
   let so := if has Tz (tokenize f) then i_off t else lz_at L r in
-  if bytes_eqb (encode_go f p (mkI r n so)) (encode_go f p t) then Some (p, r, n) else None.
+  if name_eqb (encode_go f p (mkI r n so)) (encode_go f p t) then Some (p, r, n) else None.
 Proof.
   intros Hm Hnp Hid Hr. set (ts := tokenize f) in *.
   unfold decode_lz. fold ts. rewrite Hm. unfold decode_caps_lz.
@@ -1004,7 +999,7 @@ Proof.
     - intros HTf. unfold trunc_start. cbn [snd]. rewrite HTf. apply Z.div_mul. lia.
     - intros Hz. rewrite Hz. reflexivity.
     - intros Hs. subst r. unfold decoded_unix. rewrite Hs. reflexivity. }
-  rewrite Hre, bytes_eqb_refl. reflexivity.
+  rewrite Hre, name_eqb_refl. reflexivity.
 Qed.
 
 (* whatever the zone does, a name Encode wrote can only be recognised with the Start time.Date gives *)
@@ -1016,7 +1011,7 @@ Theorem decode_lz_of_match_inv L f p t p' u' n' :
   p' = p /\ u' = decoded_unix L (tokenize f) t /\ n' = snd (trunc_start (tokenize f) t).
 Proof.
   intros Hm Hnp Hid Hr. rewrite (decode_lz_unfold L f p t Hm Hnp Hid Hr). cbv zeta.
-  destruct (bytes_eqb _ _); [|discriminate]. intros H. inversion H. repeat split.
+  destruct (name_eqb _ _); [|discriminate]. intros H. inversion H. repeat split.
 Qed.
 
 Lemma wf_match f p t : wf_format f = true -> name_ok p = true -> enc_ranges (tokenize f) t = true ->
@@ -1146,9 +1141,9 @@ Lemma decode_lz_inv L f v r : decode_lz L f v = Some r ->
 Proof.
   unfold decode_lz. destruct (mtch true (tokenize f) v) as [caps|] eqn:Hm; [|discriminate].
   destruct (decode_caps_lz L caps) as [[p u] n] eqn:Hd.
-  destruct (bytes_eqb _ v) eqn:Hb; [|discriminate]. intros H. inversion H; subst r. clear H.
+  destruct (name_eqb _ v) eqn:Hb; [|discriminate]. intros H. inversion H; subst r. clear H.
   exists caps. cbn [fst snd]. split; [reflexivity|]. split; [now symmetry|].
-  symmetry. apply bytes_eqb_eq. exact Hb.
+  symmetry. apply name_eqb_eq. exact Hb.
 Qed.
 
 (* the current Decode recognises only what the one without the final comparison recognised *)
